@@ -19,6 +19,8 @@ NAMES = [
     "as_numpy", "k2", "dataset_name",
     # unusual but legal identifiers
     "_private", "__dunder__", "CamelCase", "UPPER", "x", "na\u00efve", "class_", "a1", "type", "param", "default",
+    # look-alikes of names with a meaning elsewhere (receiver, section words, the return entry)
+    "self_mask", "cls_token", "returns", "kwargs_", "args_",
 ]
 # words that never trigger cdd's prose->type inference (no number/whether/path/string/list/of/or/...)
 WORDS = [
@@ -323,6 +325,30 @@ def rand_ir(r, nparams=None, type_kinds=TYPE_KINDS, default_kinds=None, suffix_d
                     break
         ret = OrderedDict([("return_type", rp)])
     return make_ir(r, params, name=name, returns=ret)
+
+
+FAMILIES = (("size", "size_", "sizes", "batch_size", "size2", "resize"), ("x", "x1", "x_", "xx", "_x", "ax"),
+            ("name", "names", "name_", "dataset_name", "rename", "name2"), ("lr", "lr_", "lrs", "lr_decay", "_lr", "lr2"))
+
+
+def similar_ir(r, type_kinds=("int", "float", "str", "bool"), default_kinds=("absent", "int", "float", "str", "bool"),
+               name="Foo", with_return=None, all_defaults=False):
+    """entries that resemble each other: names sharing a prefix / suffix, two identical descriptions, equal types and
+    equal defaults - what a lookup by `startswith`, `find` or by value would confuse"""
+    fam = r.choice(FAMILIES)
+    names = r.sample(fam, r.randint(3, len(fam)))
+    ir = rand_ir(r, nparams=len(names), type_kinds=type_kinds, default_kinds=default_kinds, name=name,
+                 with_return=with_return, all_defaults=all_defaults)
+    vals = list(ir["params"].values())
+    if len(vals) >= 2 and r.random() < 0.7:
+        i, j = r.sample(range(len(vals)), 2)
+        vals[j]["doc"] = vals[i]["doc"]  # the same description twice
+        if r.random() < 0.5 and ("default" in vals[i]) == ("default" in vals[j]):
+            vals[j]["typ"] = vals[i]["typ"]
+            if "default" in vals[i]:
+                vals[j]["default"] = vals[i]["default"]
+    ir["params"] = OrderedDict(zip(names, vals))
+    return ir
 
 
 def matrix_cases(type_kinds=TYPE_KINDS, default_kinds=DEFAULT_KINDS):
